@@ -31,12 +31,12 @@ METHS = ['GET', 'POST', 'PUT']
 
 
 def bare(ast):
-    return ''.join(s[1] if s[0] == 'lit' else '\r' for s in R.merge(ast))[1:]
+    return ''.join(s[1] if s[0] == 'lit' else ('\r' + (str(s[4]) if s[2] == 'rex' else '')) for s in R.merge(ast))[1:]
 
 
 def sig(ast):
     a = R.merge(ast)
-    return tuple((s[2], s[3] if s[2] == 're' else (R.following_literal(a, i) if s[2] == 'path' else None)) for i, s in enumerate(a) if s[0] == 'w')
+    return tuple((s[2], s[3] if s[2] in ('re', 'rex') else (R.following_literal(a, i) if s[2] == 'path' else None)) for i, s in enumerate(a) if s[0] == 'w')
 
 
 def truncations(ast):
@@ -60,7 +60,7 @@ def case_st(draw):
     uni = [base]
     for _ in range(draw(st.integers(3, 8))):
         src = draw(st.sampled_from(uni))
-        uni.append(draw(st.one_of(R.derived_rule_st(src), R.derived_rule_st(src), R.derived_rule_st(src), R.rule_st(3))))
+        uni.append(draw(st.one_of(R.derived_rule_st(src), R.derived_rule_st(src), R.derived_rule_st(src), R.rule_st(3), R.rule_st(3, rex=True))))
     uni = [R.merge(a) for a in uni if R.legal(a) and R.renderable(a)]
     hookable = [[['lit', '/']]]
     for a in uni:
@@ -192,6 +192,10 @@ def consumed_positions(ast, path):
             wi += 1
             k += 1
             pos[k] = i
+            if s[2] == 'rex':
+                for _ in str(s[4]):          # the selector characters are pattern text that consumes nothing of the path
+                    k += 1
+                    pos[k] = i
     return pos
 
 
@@ -199,6 +203,8 @@ def expected(model, path, method):
     """Independent expectation from the model and the reference matcher (None = verdict hangs on the empty-binding policy)."""
     keys = list(model.routes)
     asts = [model.routes[k]['ast'] for k in keys]
+    if any(s[0] == 'w' and s[2] == 'rex' for a in asts + [h['ast'] for h in model.hooks.values()] for s in a):
+        return None         # rex wildcards: only the comparison with the freshly built router applies (their selector fallback is undocumented)
     sp = path.strip('/')
     strict, lenient, agreed = R.verdict(asts, sp)
     if not agreed or (strict is None) != (lenient is None):
